@@ -5,6 +5,8 @@ import (
 	"bytes"
 	"fmt"
 	"go/format"
+	"go/parser"
+	gotoken "go/token"
 	"io"
 	"os"
 	"sort"
@@ -83,6 +85,11 @@ func (f *File) Render(w io.Writer) error {
 	} else {
 		var err error
 		output, err = format.Source(source.Bytes())
+		if err == nil {
+			// format.Source also accepts a list of declarations or statements: a File must still
+			// have its package clause (comment text may have swallowed it)
+			_, err = parser.ParseFile(gotoken.NewFileSet(), "", output, parser.PackageClauseOnly)
+		}
 		if err != nil {
 			return fmt.Errorf("Error %s while formatting source:\n%s", err, source.String())
 		}
